@@ -81,6 +81,9 @@ class ClientConfigurationEndpoint:
             "client_secret_expires_at",
             "client_id_issued_at",
         )
+        if not isinstance(request.data, dict):
+            raise InvalidRequestError()
+
         for k in must_not_include:
             if k in request.data:
                 raise InvalidRequestError()
